@@ -327,6 +327,17 @@ def mon_C13(run):
                 allowed.add(k0 - 2)
             if k1 not in allowed:
                 run.v("C13", "mesh update after a poll is not double/half/quarter", "mesh-rule-noisy", (k0, k1, it))
+            # success is judged on GP estimates: recompute it from the estimates the poll itself obtained for the polled
+            # points (observed at the improvement seam) against the incumbent estimate at poll entry (default quantile 0.5:
+            # improvement = incumbent estimate - estimate at the polled point)
+            elif uo.get("improvement_quantile", 0.5) == 0.5 and not uo.get("stobads") and pol.get("impr") is not None:
+                ests = [fn for fb, fn in pol["impr"]]
+                suff = max(pol["mesh"] ** 1.5, tf)
+                good = bool(ests) and (pol["fval0"] - min(ests)) > suff
+                if good and k1 != min(k0 + 1, cap):
+                    run.v("C13", "poll found a sufficient improvement (on the GP estimates) but the mesh was not doubled", "mesh-rule-noisy-success", (k0, k1, pol["fval0"], min(ests), suff))
+                if not good and k1 == min(k0 + 1, cap) and not (k0 == cap and k1 == cap):
+                    run.v("C13", "mesh doubled although no polled point improved sufficiently (on the GP estimates)", "mesh-rule-noisy-failure", (k0, k1, pol["fval0"], min(ests) if ests else None, suff))
     if completed(run) and "tol_mesh" in (run.result["message"] or ""):
         tm = uo.get("tol_mesh", 1e-6)
         tmr = 2.0 ** np.ceil(np.log(tm) / np.log(2.0))
@@ -362,6 +373,8 @@ def mon_C14(run):
             u = vt(c["x"].reshape(1, -1))[0]
             d = u - u0
             tol = 1e-9 * (1.0 + np.abs(u0).max() + np.abs(dirs).max())
+            if run.user_opts.get("force_poll_mesh"):
+                tol = max(tol, 0.5 * pol["smesh"] * (1 + 1e-9))  # documented option: poll points are rounded to the (much finer) search mesh
             j = [i for i in range(len(dirs)) if np.all(np.abs(d - dirs[i]) <= tol)]
             if not j:
                 run.v("C14", "polled point is not incumbent + mesh*direction", "poll-point-off-direction", (d.tolist(), mesh))
